@@ -218,10 +218,11 @@ impl BinArchive {
         let data_size = cursor.read_u32(endian)?;
         let pointer_count = cursor.read_u32(endian)?;
         let label_count = cursor.read_u32(endian)?;
-        let text_start = (data_size + (pointer_count * 4) + (label_count * 8)) as usize;
-        if text_start + 0x20 > bytes.len() {
+        let text_start = data_size as u64 + (pointer_count as u64 * 4) + (label_count as u64 * 8);
+        if text_start + 0x20 > bytes.len() as u64 {
             return Err(ArchiveError::ArchiveTooSmall);
         }
+        let text_start = text_start as usize;
 
         let mut archive = BinArchive::new(endian);
         cursor.seek(SeekFrom::Start(0x20))?;
